@@ -173,7 +173,19 @@ def run(ctx):
                                    "case": core.to_jsonable(c), "implementation": core.to_jsonable(a), "model": core.to_jsonable(b),
                                    "class": "c14-disagreement"})
     dist["oracle_missing_skipped"] = skipped
-    return {"evaluations": len(cases), "distinct_nontrivial": nt, "rule": RULE,
+    # the model's own base64 pair (C14_base64_inverse is about it) against python's: encode and the spec-side decode
+    strs = ["", "a", "ab", "abc", "abcd", "é", "\x00\x01\xff".encode("latin-1").decode("latin-1"), "line\nbreak", " " * 7] + \
+           ["".join(chr(32 + rng.below(95)) for _ in range(rng.below(40))) for _ in range(60)]
+    strs = [x for x in strs if all(ord(ch) < 128 for ch in x)]
+    mb = ctx.model([["b64", x] for x in strs])
+    for x, r in zip(strs, mb):
+        want = base64.b64encode(x.encode()).decode()
+        if not (isinstance(r, list) and len(r) == 2 and r[0] == want and r[1] == x) and len(ctx.violations) < 5:
+            ctx.violations.append({"name": "b64-" + core.vhash(x), "property": "C14", "kind": "no-failing-input-found",
+                                   "theorem": "C14_base64_inverse (Properties/C14.v) is about Model.Str.b64_encode/b64_decode",
+                                   "why": "the model's base64 of %r is %r (python: %r)" % (x, r, want), "class": "c14-b64-model"})
+    dist["model_base64_pairs"] = len(strs)
+    return {"evaluations": len(cases) + len(strs), "distinct_nontrivial": nt, "rule": RULE,
             "samples": [core.to_jsonable(c[2]) for c in cases[:3]], "distribution": dist, "disagreements_checked": len(ctx.violations)}
 
 
